@@ -173,6 +173,35 @@ func c06(c *ctx) {
 	}
 	extra := []wop{{"SetExt", "1", ""}, {"SetExt", "0", ""}, {"ResetOp", "2", ""}, {"ResetOp", "1", ""}, {"Write", "s", ""}, {"Write", "s/2", ""}, {"Flush", "", ""}, {"Flush", "", ""},
 		{"WriteThrough", "1", "extfail"}, {"WriteThrough", "s+1", "extfail"}}
+	// a writer re-targeted by Reset between sides whose states carry further bits (extended,
+	// fragmented): frames are masked exactly when the state it was given last is client-side
+	sides := []string{"server", "client", "server+ext", "client+ext", "server+frag", "client+ext+frag"}
+	for ai, a := range sides {
+		for bi, b := range sides {
+			for oi, first := range []wop{{"Write", "1", ""}, {"Write", "2s+1", ""}, {"Flush", "", ""}} {
+				ops := []wop{first, {"Reset", b + "/2", ""}, {"Write", "1", ""}, {"WriteThrough", "s+1", ""}, {"ReadFrom", "a+1", "eof"}, {"Flush", "", ""},
+					{"Reset", a + "/1", ""}, {"Write", "a", ""}, {"Flush", "", ""}}
+				run(wscenario{Key: fmt.Sprintf("resetside/%d/%d/%d", ai, bi, oi), Ctor: []string{"NewWriterSize", "NewWriterBufferSize", "GetWriter"}[(ai+bi+oi)%3],
+					N: []int{16, 130, 128}[(ai+oi)%3], Side: a, Op: 1, Ops: ops})
+			}
+		}
+	}
+	// ReadFrom from sources that end badly - an error, or no progress any more - exactly when the buffer
+	// is full, one byte before and after, or at once: whatever was taken belongs to the message, and the
+	// final flush must still end it
+	for ci, cf := range wconfigs(false) {
+		for _, total := range []string{"0", "1", "a-1", "a", "a+1", "s", "s+1", "2s+1"} {
+			for _, end := range []string{"stall", "err", "eof", "stall/3", "err/1"} {
+				for pi, pre := range [][]wop{{}, {{"Write", "1", ""}}, {{"Write", "a", ""}}, {{"FlushFragment", "", ""}}} {
+					if ci%3 != pi%3 && len(pre) > 0 {
+						continue
+					}
+					ops := append(append([]wop(nil), pre...), wop{"ReadFrom", total, end}, wop{"Flush", "", ""}, wop{"Write", "1", ""}, wop{"Flush", "", ""})
+					run(wscenario{Key: fmt.Sprintf("rfend/%d/%s", ci, opsKey(ops)), Ctor: cf.Ctor, N: cf.N, Side: cf.Side, Op: cf.Op, Ops: ops, Ext: cf.Ext})
+				}
+			}
+		}
+	}
 	// a write-through that a send extension refuses, between any two operations
 	for ci, cf := range wconfigs(false) {
 		for _, a := range wAlphabet {
